@@ -63,10 +63,28 @@ type Stats struct {
 	CutByBound     bool // some alternative was not explored because it exceeded Bound
 }
 
+// item is one execution still to run: follow the first n decisions of the parent execution (base, shared between all
+// children of that execution), then take alternative alt. The root item has n == -1.
 type item struct {
-	choices []byte
+	base    []byte
+	n       int
+	alt     byte
 	devs    int
 	metaSum uint64 // rolling hash of (kind, n, site) of the prefix decisions, for the divergence check
+}
+
+func (it *item) prefixLen() int { return it.n + 1 }
+
+func (it *item) choices() []int {
+	if it.n < 0 {
+		return nil
+	}
+	out := make([]int, it.n+1)
+	for i := 0; i < it.n; i++ {
+		out[i] = int(it.base[i])
+	}
+	out[it.n] = int(it.alt)
+	return out
 }
 
 func metaHash(prev uint64, d *Decision) uint64 {
@@ -114,7 +132,7 @@ func (e *Explorer) Run() Stats {
 	if shards <= 0 {
 		shards = 1
 	}
-	levels := map[int][]item{0: {{}}}
+	levels := map[int][]item{0: {{n: -1}}}
 	maxLevel := 0
 	firstLevelIdx := 0
 	for lvl := 0; ; lvl++ {
@@ -146,11 +164,8 @@ func (e *Explorer) Run() Stats {
 			}
 			it := q[len(q)-1]
 			q = q[:len(q)-1]
-			choices := make([]int, len(it.choices))
-			for i, c := range it.choices {
-				choices[i] = int(c)
-			}
-			tr, outcome, viols := e.runOne(choices)
+			plen := it.prefixLen()
+			tr, outcome, viols := e.runOne(it.choices())
 			st.Executions++
 			st.Decisions += int64(len(tr.Decisions))
 			if len(tr.Decisions) > st.MaxDepth {
@@ -162,15 +177,15 @@ func (e *Explorer) Run() Stats {
 			}
 			// divergence check on the prefix
 			var sum uint64
-			if len(tr.Decisions) < len(it.choices) {
-				st.EngineErr = fmt.Sprintf("replay divergence: execution has %d decisions, prefix has %d", len(tr.Decisions), len(it.choices))
+			if len(tr.Decisions) < plen {
+				st.EngineErr = fmt.Sprintf("replay divergence: execution has %d decisions, prefix has %d", len(tr.Decisions), plen)
 				return st
 			}
-			for i := range it.choices {
+			for i := 0; i < plen; i++ {
 				sum = metaHash(sum, &tr.Decisions[i])
 			}
 			if sum != it.metaSum {
-				st.EngineErr = fmt.Sprintf("replay divergence: decision metadata of the %d-decision prefix differs from the recorded execution", len(it.choices))
+				st.EngineErr = fmt.Sprintf("replay divergence: decision metadata of the %d-decision prefix differs from the recorded execution", plen)
 				return st
 			}
 			if e.OnExec != nil {
@@ -201,7 +216,11 @@ func (e *Explorer) Run() Stats {
 			// expand alternatives at every decision after the prefix
 			sum = it.metaSum
 			devs := it.devs
-			for i := len(it.choices); i < len(tr.Decisions); i++ {
+			base := make([]byte, len(tr.Decisions)) // shared by all children of this execution
+			for k := range tr.Decisions {
+				base[k] = byte(tr.Decisions[k].Chosen)
+			}
+			for i := plen; i < len(tr.Decisions); i++ {
 				d := &tr.Decisions[i]
 				if !d.Moot {
 					for alt := 1; alt < d.N; alt++ {
@@ -210,7 +229,7 @@ func (e *Explorer) Run() Stats {
 							st.CutByBound = true
 							continue
 						}
-						if len(it.choices) == 0 && shards > 1 {
+						if plen == 0 && shards > 1 {
 							// first-level alternative of the root execution: sharded over processes
 							mine := firstLevelIdx%shards == e.Shard
 							firstLevelIdx++
@@ -218,12 +237,7 @@ func (e *Explorer) Run() Stats {
 								continue
 							}
 						}
-						nc := make([]byte, i+1)
-						for k := 0; k < i; k++ {
-							nc[k] = byte(tr.Decisions[k].Chosen)
-						}
-						nc[i] = byte(alt)
-						child := item{choices: nc, devs: nd, metaSum: metaHash(sum, d)}
+						child := item{base: base, n: i, alt: byte(alt), devs: nd, metaSum: metaHash(sum, d)}
 						if nd == lvl {
 							q = append(q, child)
 						} else {
